@@ -195,6 +195,8 @@ type Exec struct {
 	writerRemoved map[string]bool // owner|topic|writer removed at least once (probe)
 	maxTxID      int
 	inEpilogue   bool
+	KeepApps     bool
+	OnCommit     func(h int64) // race sub-check: called on the block goroutine after every Commit of the reference replica
 }
 
 func NewExec(s *Script, env *Env, scratch string, known *KnownFindings, tracePath string) *Exec {
@@ -275,6 +277,9 @@ func (e *Exec) resync(get StoreGetter) {
 func (e *Exec) Run() {
 	defer e.Trace.Close()
 	defer func() {
+		if e.KeepApps {
+			return
+		}
 		for _, r := range e.R {
 			r.App = nil
 		}
@@ -471,6 +476,9 @@ func (e *Exec) produceBlock(st *Step) {
 	e.afterCommitChecks(rec)
 	if e.stop {
 		return
+	}
+	if e.OnCommit != nil {
+		e.OnCommit(h)
 	}
 	// deliver to the other replicas
 	for i := 1; i < len(e.R); i++ {
